@@ -17,9 +17,11 @@ import scen
 PROP = "C03"
 NAMES = ["foo", "bar", "src/a.c", "src/b.c", "out/x", "a/b/c", "README", ".hidden", "pkg/foo", "dst/foo", "dst/src/a.c",
          # siblings that share a prefix *string* with a directory used as IN prefix, and what is left when it is cut off
-         "srcfoo", "src2/a.c", "2/a.c", "outx", "a/bc", "dstfoo"]
+         "srcfoo", "src2/a.c", "2/a.c", "outx", "a/bc", "dstfoo",
+         # the same names in another letter case (matching is case-sensitive)
+         "Foo", "readme", "SRC/a.c", "src/A.C"]
 PATTERNS = ["*", "foo", "*.c", "src/*", "?ar", "[fb]*", "[!f]*", "[a-c]*", "a/b/*", "out/*", "nomatch", "src/a.c",
-            "*o*", "dst/*", "pkg/*", "a.c", "b.c", "x", "c"]
+            "*o*", "dst/*", "pkg/*", "a.c", "b.c", "x", "c", "FOO", "readme", "README", "*.C", "SRC/*", "[F]*", "Src/*"]
 PREFIXES = ["src", "out", "a/b", "dst", "pkg", "dst/src"]   # normalised: no trailing slash
 BAD = ["a**b", "[a", "**x", "x**", "[!", "a[", "***", "[]"]
 SIMPLE = ["CREATE", "DELETE", "MODIFY", "ALLOW", "REQUIRE", "DISALLOW"]
@@ -29,6 +31,11 @@ CONTENT = {t: f"content-{t}\n" for t in range(8)}
 
 def dg(tag):
     return {"sha256": hashlib.sha256(CONTENT[tag].encode()).hexdigest()}
+
+
+def dg2(tag, tag512):
+    """two digests; descriptions are equal only if both agree"""
+    return {"sha256": hashlib.sha256(CONTENT[tag].encode()).hexdigest(), "sha512": hashlib.sha512(CONTENT[tag512].encode()).hexdigest()}
 
 
 def rand_rule(rng, refs, allow_bad=True):
@@ -99,7 +106,14 @@ def rand_case(rng):
                 for path, d in src.items():
                     for v in rng.sample(near_variants(path), min(3, len(near_variants(path)))):
                         tgt = rng.choice([m, p])
-                        tgt[v] = d if rng.random() < 0.8 else dg(6)
+                        r_ = rng.random()
+                        if r_ < 0.7:
+                            tgt[v] = d
+                        elif r_ < 0.85:
+                            tgt[v] = dg(6)
+                        else:
+                            # agrees on the algorithm(s) the item recorded, but carries a further one (unequal descriptions)
+                            tgt[v] = dict(d, sha512=hashlib.sha512(b"other").hexdigest())
         else:
             for n in rng.sample(NAMES, rng.randrange(0, 6)):
                 tgt = rng.choice([m, p])
